@@ -71,6 +71,8 @@ enum Cmd {
     Send { peer: usize, sync: bool, count: u32, size: usize },
     Stall { ms: u64 },
     SetVal { mode: String, delay_ms: u64 },
+    /// re-open a stream the moment its close is reported (a common user pattern)
+    SetReopen { on: bool },
     FinalReset,
 }
 
@@ -100,6 +102,7 @@ fn peer_index(seed: u64, total: usize, p: &PeerId) -> usize {
 }
 
 struct DriverCfg {
+    reopen_on_close: bool,
     node: usize,
     seed: u64,
     total: usize,
@@ -126,6 +129,7 @@ fn spawn_driver(handle: &Handle, log: Log, cfg: DriverCfg, mut nh: NotificationH
         let mut seqs: BTreeMap<(usize, u8), u32> = BTreeMap::new();
         let mut open_peers: BTreeSet<usize> = BTreeSet::new();
         let mut cmds_open = true;
+        let mut reopen = cfg.reopen_on_close;
         loop {
             let now = tokio::time::Instant::now();
             if stall_until.is_some_and(|s| s <= now) {
@@ -195,7 +199,9 @@ fn spawn_driver(handle: &Handle, log: Log, cfg: DriverCfg, mut nh: NotificationH
                         val_mode = mode;
                         val_delay = delay_ms;
                     }
+                    Some(Cmd::SetReopen { on }) => reopen = on,
                     Some(Cmd::FinalReset) => {
+                        reopen = false;
                         push(&log, &h, i, K::FinalReset);
                         stall_until = None;
                         val_mode = "accept".into();
@@ -263,6 +269,10 @@ fn spawn_driver(handle: &Handle, log: Log, cfg: DriverCfg, mut nh: NotificationH
                         let p = peer_index(seed, total, &peer);
                         open_peers.remove(&p);
                         push(&log, &h, i, K::EClosed { peer: p });
+                        if reopen {
+                            let r = nh.open_substream(peer).await;
+                            push(&log, &h, i, K::COpen { peer: p, res: match &r { Ok(()) => "ok".into(), Err(e) => format!("{e:?}") } });
+                        }
                     }
                     Some(NotificationEvent::NotificationStreamOpenFailure { peer, error }) => {
                         let p = peer_index(seed, total, &peer);
@@ -472,6 +482,7 @@ impl Prop for NotifProp {
                 "should_dial": rng.chance(5, 6),
                 "sync_size": *rng.pick(&[1u64, 2, 8, 64]),
                 "async_size": *rng.pick(&[1u64, 4, 8]),
+                "reopen_on_close": rng.chance(1, 4),
                 "val_mode": *rng.pick(&["accept", "accept", "accept", "mixed", "reject", "ignore"]),
                 "val_delay_ms": *rng.pick(&[0u64, 0, 20, 1500, 6000]),
             }));
@@ -545,7 +556,7 @@ impl Prop for NotifProp {
                 drv_tx.push(Some(spawn_driver(
                     &handle,
                     log.clone(),
-                    DriverCfg { node: i, seed, total, val_mode: pn["val_mode"].as_str().unwrap_or("accept").to_string(), val_delay_ms: pn["val_delay_ms"].as_u64().unwrap_or(0) },
+                    DriverCfg { reopen_on_close: pn["reopen_on_close"].as_bool().unwrap_or(false), node: i, seed, total, val_mode: pn["val_mode"].as_str().unwrap_or("accept").to_string(), val_delay_ms: pn["val_delay_ms"].as_u64().unwrap_or(0) },
                     nh,
                 )));
                 should_dial.push(sd);
@@ -704,6 +715,8 @@ impl<'a> Ctx<'a> {
         let mut pending_validation = false; // ValidateSubstream received, not answered yet
         // (time of request, answered?) for open requests issued while idle
         let mut idle_requests: Vec<(u64, bool)> = Vec::new();
+        // close_substream issued while the user sees the stream open: (time, closed since?)
+        let mut close_requests: Vec<(u64, bool)> = Vec::new();
         for r in evs.iter() {
             match &r.k {
                 K::COpen { peer, res } if *peer == j => {
@@ -766,7 +779,15 @@ impl<'a> Ctx<'a> {
                         l.1 = true;
                     }
                 }
+                K::CClose { peer } if *peer == j => {
+                    if open {
+                        close_requests.push((r.t, false));
+                    }
+                }
                 K::EClosed { peer } if *peer == j => {
+                    for c in close_requests.iter_mut() {
+                        c.1 = true;
+                    }
                     if !open {
                         v.push(("c11:closed-without-opened".into(), format!("node {i}: NotificationStreamClosed for n{j} at {} while not open", ts(r.t))));
                     }
@@ -798,6 +819,12 @@ impl<'a> Ctx<'a> {
         }
         if !self.alive(i) {
             return;
+        }
+        // a close request for an open stream is honoured
+        for (t, closed) in close_requests.iter() {
+            if !*closed && *t + 45_000_000_000 <= self.end_ns {
+                v.push(("c11:close-unanswered".into(), format!("node {i}: close_substream(n{j}) at {} while the stream was open was never followed by NotificationStreamClosed", ts(*t))));
+            }
         }
         // response rule
         for (t, answered) in idle_requests.iter() {
